@@ -9,6 +9,10 @@ THEOREMS = [
     "GoaktVerif.C44.C44_conservation_holds",
     "GoaktVerif.C44.C44_exactly_once_holds",
     "GoaktVerif.C44.C44_requeue_holds",
+    "GoaktVerif.C44.C44_confirmed_once_holds",
+    "GoaktVerif.C44.C44_dispatch_holds",
+    "GoaktVerif.C44.handle_saturated",
+    "GoaktVerif.C44.handle_notices",
     "GoaktVerif.C44.C44_endBinding_pending",
     "GoaktVerif.C44.handle_conserve",
     "GoaktVerif.C44.run_conserve",
@@ -16,8 +20,8 @@ THEOREMS = [
 INPKG = ["actor/zz_verif_c42.go", "actor/zz_verif_c44.go"]
 TIMEOUT = 900
 MANIFEST = {
-    "level_text": "PARTIAL (volatile path, local workers, no controller restart). Kernel-checked for ALL input sequences to an executable model of workPullingProducerController (pending pool, per-worker bindings, round-robin cursor, handshake): job conservation as a multiset identity accepted = pending + all workers' unconfirmed + confirmed (C44_conservation_holds, via handle_conserve for every handler and every input); with non-reused MessageIDs every accepted job sits in exactly one place exactly once, so it is never lost, never duplicated and confirmed at most once (C44_exactly_once_holds); a worker's termination removes its binding and keeps every job held, its unconfirmed jobs going back to the head of the pool (C44_requeue_holds, C44_endBinding_pending). The model is tied to the code by replaying every handler of the REAL controller under scripted worker churn (3 workers x 2 companion incarnations, fresh/stale nonces, legal/illegal demand, terminations) and comparing all sent messages and all fields after each step; a conservation oracle is evaluated on the real trace.",
-    "level_note": "Not in the model: durable work queue, controller restart, remote-worker authentication through the cluster registry (authentication is an input), MaxInt64 exhaustion. 'Handed to at least one worker' is not a temporal theorem (a job waits while no worker grants demand); dispatch-when-capacity-exists is checked by the differential only. The oracle on the real trace is the Python mirror in tools/props/c44.py (the Lean judge is a stub).",
+    "level_text": "PARTIAL (volatile path, local workers, no controller restart). Kernel-checked for ALL input sequences to an executable model of workPullingProducerController (pending pool, per-worker bindings, round-robin cursor, handshake): job conservation as a multiset identity accepted = pending + all workers' unconfirmed + confirmed (C44_conservation_holds, via handle_conserve for every handler and every input); with non-reused MessageIDs every accepted job sits in exactly one place exactly once, so it is never lost, never duplicated and confirmed at most once (C44_exactly_once_holds); a worker's termination removes its binding and keeps every job held, its unconfirmed jobs going back to the head of the pool (C44_requeue_holds, C44_endBinding_pending); the DeliveryConfirmed notices sent to the producer endpoint are exactly the confirmed jobs, each MessageID at most once (C44_confirmed_once_holds); a job stays in the pool only while no registered worker has free demand (C44_dispatch_holds, round-robin probe covers every binding). The model is tied to the code by replaying every handler of the REAL controller under scripted worker churn (3 workers x 2 companion incarnations, fresh/stale nonces, legal/illegal demand, terminations) and comparing all sent messages and all fields after each step; a conservation oracle is evaluated on the real trace.",
+    "level_note": "Not in the model: durable work queue, controller restart, remote-worker authentication through the cluster registry (authentication is an input), MaxInt64 exhaustion. 'Handed to at least one worker' is not a temporal theorem: a job waits while no worker grants demand, and loss of the SequencedMessage on the way to the worker is recovered by the worker's timeout Request (resend), which is in the model but whose eventual occurrence is not. The oracle on the real trace is Spec.C44.Mon (Lean judge) with a Python mirror for messages.",
     "technique": "Lean 4 invariant over all input sequences of an executable model of the work-pulling controller + per-step differential replay of the real handlers under scripted worker churn",
 }
 TRUSTED = [
@@ -147,6 +151,16 @@ def oracle(case, impl, judge):
     a terminated worker's jobs are still held afterwards."""
     if impl.startswith("CRASH") or impl.startswith("panic") or impl.startswith("setup-error"):
         return "harness failed: " + impl[:200]
+    if judge is not None and judge.startswith("bad") and "conservation:" not in judge:
+        return judge          # unparsable / mismatching trace
+    mirror = _mirror(case, impl)
+    if judge is not None and judge.startswith("bad") and mirror is None:
+        return judge          # Spec.C44.Mon (Lean) found what the mirror missed
+    return mirror
+
+
+def _mirror(case, impl):
+    """python mirror of Spec.C44.Mon with a more detailed message"""
     f = case.split()
     dc, ops = f[0] == "1", ["init"] + f[1:]
     segs = impl.split(";")
